@@ -15,7 +15,7 @@ import jax.numpy as jnp  # noqa: E402
 import numpy as np  # noqa: E402
 from loguru import logger  # noqa: E402
 
-from harness.tabular import TabProblem, tabulate, problem_line, frac, flist  # noqa: E402
+from harness.tabular import TabProblem, make_problem, tabulate, problem_line, frac, flist  # noqa: E402
 
 PROBLEMS: dict = {}
 TABS: dict = {}
@@ -144,7 +144,7 @@ def do(op: dict) -> str:
               and (u1 == u0[:, None] * 10 + np.arange(3)).all() and (u2 == u0[:, None, None] * 100 + np.arange(6).reshape(2, 3)).all())
         return flist(int(x) for x in u0) + ("" if ok else " trailing-dims-mismatch")
     if o == "problem":
-        p = TabProblem(op["spec"])
+        p = make_problem(op["spec"])
         PROBLEMS[op["id"]] = p
         TABS[op["id"]] = tabulate(p)
         return problem_line(op["id"], TABS[op["id"]])
